@@ -31,6 +31,72 @@ def vstackList {α : Type} (axis : Option Int) : List (Expr α) → Option (Expr
   | [] => none
   | e :: es => some (es.foldl (fun acc x => .vstack axis acc x) e)
 
+/-! ### the primitive an `_apply` body calls (generated table `Gen.LinopAdjoint.applyGen`) -/
+
+/-- numpy / `sigpy.util` / `sigpy.block` / `sigpy.interp` call made by an `_apply` body on `input`, with its
+    other arguments -/
+inductive Prim where
+  | ret                                                                   -- `return input`
+  | reshape (oshape : List Int)                                           -- `input.reshape(oshape)`
+  | transpose (axes : Option (List Int))                                  -- `input.transpose(axes)`
+  | resize (oshape : List Int) (ishift oshift : Option (List Int))        -- `util.resize(input, oshape, ishift=, oshift=)`
+  | flip (axes : Option (List Int))                                       -- `util.flip(input, axes)`
+  | circshift (shifts : List Int) (axes : Option (List Int))              -- `util.circshift(input, shifts, axes)`
+  | downsample (factors shift : List Int)                                 -- `util.downsample(input, factors, shift=)`
+  | upsample (oshape factors shift : List Int)                            -- `util.upsample(input, oshape, factors, shift=)`
+  | sum (axes : List Int)                                                 -- `xp.sum(input, axis=axes)`
+  | getitem (idx : List PySlice)                                          -- `input[idx]`
+  | arrayToBlocks (blk str : List Int)                                    -- `block.array_to_blocks(input, blk, str)`
+  | interpolate (pts : List Int) (coord : List (List Rat)) (width param : Rat)  -- `interp.interpolate(input, coord, …)`
+
+section prim
+variable {α : Type} [Add α] [Mul α] [Zero α] [One α] (ofRat : Rat → α)
+
+/-- what the primitive does to an array of shape `ish` (the numpy / util contracts of the model, the same
+    functions `leafSem0` uses) -/
+def primSem (ish : List Int) : Prim → Option (Sem α)
+  | .ret => some ⟨ish, ish, idE (shapeProd ish).toNat⟩
+  | .reshape osh => if shapeProd osh = shapeProd ish then some ⟨osh, ish, idE (shapeProd ish).toNat⟩ else none
+  | .transpose axes => transposeSem ish axes
+  | .resize osh is' os' => some ⟨osh, ish, labelE (shapeProd ish).toNat (C09.resize ish osh is' os')⟩
+  | .flip axes => some ⟨ish, ish, labelE (shapeProd ish).toNat (C09.flip ish axes)⟩
+  | .circshift sf axes =>
+      let n := (shapeProd ish).toNat
+      match C09.circshift ish sf axes ((Array.range n).map (· + 1)) with
+      | none => none
+      | some _ => some ⟨ish, ish, labelE n fun x => (C09.circshift ish sf axes x).getD #[]⟩
+  | .downsample f s =>
+      if f.length ≠ ish.length ∨ s.length ≠ ish.length then none else
+      some ⟨C09.zip3With Gen.downsampleLen ish f s, ish,
+        labelE (shapeProd ish).toNat fun x => (C09.downsample ish f (some s) x).2⟩
+  | .upsample osh f s =>
+      if f.length ≠ osh.length ∨ s.length ≠ osh.length then none else
+      some ⟨osh, ish, labelE (shapeProd ish).toNat fun x => (C09.upsample osh f (some s) x).2⟩
+  | .sum axes => some (sumSem ish axes)
+  | .getitem idx => sliceSem ish idx
+  | .arrayToBlocks blk str => a2bSem ofRat ish blk str
+  | .interpolate pts coord w p =>
+      (interpEntries false ish pts coord w p).map fun (lead, gs, ps, E) =>
+        ⟨lead ++ pts, ish, updToEnt ofRat ps gs E⟩
+
+/-- `self.ishape` of the classes whose `_apply` is a single primitive call on `input` -/
+def ishOf : Leaf α → Option (List Int)
+  | .identity sh => some sh
+  | .reshape _ ish => some ish
+  | .transpose ish _ => some ish
+  | .resize _ ish _ _ => some ish
+  | .flip sh _ => some sh
+  | .circshift sh _ _ => some sh
+  | .downsample ish _ _ => some ish
+  | .upsample osh f s => some (C09.zip3With Gen.upsampleLen osh f s)
+  | .sum ish _ => some ish
+  | .slice ish _ => some ish
+  | .a2b ish _ _ => some ish
+  | .interp ish _ _ _ _ => some ish
+  | _ => none
+
+end prim
+
 /-! ### entry lists of the 1-D single-channel convolution classes, from the C08 model (executable: the
     driver prints them, the correspondence compares them with the real operators' matrices) -/
 section conv
